@@ -9,9 +9,9 @@ import (
 	"sort"
 
 	"verifharness/common"
+	_ "verifharness/engines/headerproof"
 	_ "verifharness/engines/lookup"
 	_ "verifharness/engines/net"
-	_ "verifharness/engines/headerproof"
 	_ "verifharness/engines/store"
 	_ "verifharness/engines/table"
 )
